@@ -190,15 +190,25 @@ OpAtoms == {L(Nil), L(B(TRUE)), L(B(FALSE)), L(N(0)), L(N(1)), L(N(2)), L(N(7)),
 BinOps == {"+", "-", "*", "/", "%", "<", ">", "<=", ">=", "==", "!=", "&", "|", "^", "<<", ">>"}
 UnOps == {"-", "!", "~"}
 Un(op, e) == [k |-> "un", op |-> op, e |-> e]
+(* narrower vocabularies reach deeper trees exhaustively: all pairs of logical operators, all pairs of
+   arithmetic / bitwise / comparison operators over three distinguishable numbers *)
+SelAtoms == IF "ops-logic" \in Vocab THEN {L(Nil), L(B(FALSE)), L(N(0)), L(S("a")), L(S("b"))}
+            ELSE IF "ops-arith" \in Vocab THEN {L(N(1)), L(N(2)), L(N(3))}
+            ELSE OpAtoms
+SelBin == IF "ops-logic" \in Vocab THEN {"=="}
+          ELSE IF "ops-arith" \in Vocab THEN {"+", "-", "*", "%", "<", "==", "&", "|", "^", "<<"}
+          ELSE BinOps
+SelUn == IF "ops-logic" \in Vocab THEN {"!"} ELSE IF "ops-arith" \in Vocab THEN {"-"} ELSE UnOps
+SelNodes == IF "ops-arith" \in Vocab THEN {"range"} ELSE IF "ops-logic" \in Vocab THEN {"and", "or"} ELSE {"and", "or", "range"}
 ExprSteps(g) ==
     LET n == Len(g.es) IN
-      (IF g.esize < ExprBudget THEN {[g EXCEPT !.es = Append(g.es, a), !.esize = g.esize + 1] : a \in OpAtoms} ELSE {})
+      (IF g.esize < ExprBudget THEN {[g EXCEPT !.es = Append(g.es, a), !.esize = g.esize + 1] : a \in SelAtoms} ELSE {})
  \cup (IF n >= 1 /\ g.esize < ExprBudget THEN
-         {[g EXCEPT !.es[n] = Un(op, g.es[n]), !.esize = g.esize + 1] : op \in UnOps} ELSE {})
+         {[g EXCEPT !.es[n] = Un(op, g.es[n]), !.esize = g.esize + 1] : op \in SelUn} ELSE {})
  \cup (IF n >= 2 /\ g.esize < ExprBudget THEN
-         {[g EXCEPT !.es = Append(SubSeq(g.es, 1, n - 2), Bin(op, g.es[n - 1], g.es[n])), !.esize = g.esize + 1] : op \in BinOps}
+         {[g EXCEPT !.es = Append(SubSeq(g.es, 1, n - 2), Bin(op, g.es[n - 1], g.es[n])), !.esize = g.esize + 1] : op \in SelBin}
          \cup {[g EXCEPT !.es = Append(SubSeq(g.es, 1, n - 2), [k |-> kk, l |-> g.es[n - 1], r |-> g.es[n]]), !.esize = g.esize + 1]
-                : kk \in {"and", "or", "range"}}
+                : kk \in SelNodes}
        ELSE {})
  \cup (IF n = 1 THEN {[Emit(g, [t |-> "print", e |-> g.es[1]]) EXCEPT !.es = <<>>, !.esize = 0]} ELSE {})
 
